@@ -181,7 +181,7 @@ func (H) Execute(scAny any, cfg simrt.Config, st *core.Stats) (*simrt.Outcome, *
 		return out, v
 	}
 	if out.Truncated {
-		return out, nil
+		return out, core.NoProgress(out)
 	}
 	if out.Stuck {
 		return out, &core.Violation{Signature: "deadlock", Detail: fmt.Sprint("Do never returned: ", out.StuckTasks)}
